@@ -129,14 +129,17 @@ Record eparams := mkE { e_base : Z; e_factor : Q; e_jitter : Q }.
 (* Retry-After of a 429 answer, in seconds (0 = not present / not usable) *)
 Definition retry_after_secs (o : outcome) : Z :=
   match o with
-  | OStatus c h _ => if c =? 429 then match h with [] => 0 | _ => parse_int64 h end else 0
+  | OStatus c h _ => if c =? generated_backoff_retry_after_status
+                     then match h with [] => 0 | _ => parse_int64 h end else 0
   | _ => 0
   end.
 
+(* temp, temp*(1-jitter) and 2*jitter*temp: Generated.GC17.generated_backoff_temp/_a/_n are
+   translated from the arithmetic of the source (float64 read as exact rationals) *)
 Definition exp_temp (e : eparams) (attempt : Z) : Q :=
-  (inject_Z (e_base e) * qpow (e_factor e) attempt)%Q.
-Definition exp_a (e : eparams) (attempt : Z) : Q := (exp_temp e attempt * (1 - e_jitter e))%Q.
-Definition exp_n (e : eparams) (attempt : Z) : Q := ((2 # 1) * e_jitter e * exp_temp e attempt)%Q.
+  generated_backoff_temp (e_base e) (e_factor e) (e_jitter e) attempt.
+Definition exp_a (e : eparams) (attempt : Z) : Q := generated_backoff_a (exp_temp e attempt) (e_jitter e).
+Definition exp_n (e : eparams) (attempt : Z) : Q := generated_backoff_n (exp_temp e attempt) (e_jitter e).
 
 (* [guarded] = true: the repaired source (jitter only when its bound is positive);
    [guarded] = false: the original source, rand.Int64N(n) panics for n <= 0.
@@ -144,7 +147,7 @@ Definition exp_n (e : eparams) (attempt : Z) : Q := ((2 # 1) * e_jitter e * exp_
 Definition exp_backoff_gen (guarded : bool) (oob : Q -> Z) (rnd : Z -> Z)
            (e : eparams) (attempt : Z) (o : outcome) : bres :=
   let ra := retry_after_secs o in
-  if ra >? 0 then BRet (wrap64 (ra * 1000000000))
+  if generated_backoff_retry_after_ok ra then BRet (wrap64 (ra * generated_backoff_retry_after_unit))
   else
     let a := f2i oob (exp_a e attempt) in
     let n := f2i oob (exp_n e attempt) in
@@ -557,7 +560,7 @@ Inductive eclass := ECPanic | ECRange (lo hi : Z) | ECUnjudged.
 (* exact-arithmetic classification of the original/repaired source *)
 Definition exp_class (guarded : bool) (e : eparams) (attempt : Z) (o : outcome) : eclass :=
   let ra := retry_after_secs o in
-  if ra >? 0 then let v := wrap64 (ra * 1000000000) in ECRange v v
+  if generated_backoff_retry_after_ok ra then let v := wrap64 (ra * generated_backoff_retry_after_unit) in ECRange v v
   else
     let a := qtrunc (exp_a e attempt) in
     let n := qtrunc (exp_n e attempt) in
